@@ -94,7 +94,7 @@ func quoteField(wr *hx.Writer, kind string, s []byte) {
 		line = append([]byte("Cc.q.example,"), quote.Bquote(s)...)
 		line = append(line, []byte(".t.q.example,60")...)
 	}
-	out := map[string]interface{}{"ev": "field", "kind": kind, "s": ints(s), "line": string(line), "text": "", "same": false, "err": ""}
+	out := map[string]interface{}{"ev": "field", "kind": kind, "s": ints(s), "line": string(line), "text": "", "same": false, "payload": false, "err": ""}
 	c := new(dnsdata.Codec)
 	c.Serial = 1
 	want, err := recsOf(c, line)
@@ -103,6 +103,7 @@ func quoteField(wr *hx.Writer, kind string, s []byte) {
 		wr.Put(out)
 		return
 	}
+	out["payload"] = quotePayload(c, kind, line, s)
 	r, err := c.DecodeLn(line)
 	if err != nil {
 		out["err"] = err.Error()
@@ -219,6 +220,50 @@ func linesMain(args []string) {
 		wr.Put(out)
 	})
 	fmt.Printf("{\"lines\":%d}\n", n)
+}
+
+// quotePayload: does the compiled record hold the bytes s themselves?  txt: the value ends with s cut into
+// character-strings of at most 127 bytes and nothing else follows the record head (head length taken from a
+// reference record); name: the key holds the lower-cased label; target: the value holds the label as written.
+func quotePayload(c *dnsdata.Codec, kind string, line, s []byte) bool {
+	recs, err := c.ConvertLn(line)
+	if err != nil || len(recs) == 0 {
+		return false
+	}
+	lab := append([]byte{byte(len(s))}, s...)
+	switch kind {
+	case "txt":
+		ref, err := c.ConvertLn([]byte("'t.q.example,x,60"))
+		if err != nil || len(ref) != 1 {
+			return false
+		}
+		head := len(ref[0].Value) - 2
+		var chunks []byte
+		for i := 0; i < len(s); i += 127 {
+			j := i + 127
+			if j > len(s) {
+				j = len(s)
+			}
+			chunks = append(chunks, byte(j-i))
+			chunks = append(chunks, s[i:j]...)
+		}
+		v := recs[0].Value
+		return len(v) == head+len(chunks) && bytes.Equal(v[head:], chunks)
+	}
+	// names: judged for ASCII labels only (how bytes >= 0x80 are case-folded in keys is not the quoting's business)
+	low := append([]byte{}, lab...)
+	for i, b := range low {
+		if i > 0 && b >= 0x80 {
+			return true
+		}
+		if i > 0 && b >= 'A' && b <= 'Z' {
+			low[i] = b + 32
+		}
+	}
+	if kind == "name" {
+		return bytes.Contains(recs[0].Key, low)
+	}
+	return bytes.Contains(recs[0].Value, lab)
 }
 
 func labelOK(s []byte) bool {
